@@ -344,6 +344,19 @@ def install(E):
         # a view of the same bytes: keep the reference (slices are read-only here)
         return a[0]
 
+    @reg_re(E, r'^<\[u8\] as (std::ops::)?Index<(std::ops::)?RangeFrom<usize>>>::index$')
+    def index_from(E, a, ctx):
+        v = deref(E, a[0])
+        start = a[1].fields[0]
+        n = blen(E, v)
+        if E.decide(start == 0):
+            return a[0]
+        if isinstance(v, Buf):
+            return Ref(E.alloc(Buf(v.base, v.off + start, v.len - start, None)))
+        if E.decide(start == n):
+            return Ref(E.alloc(Rope([], None)))
+        raise Unsupported('slice of a rope from a symbolic offset')
+
     @reg(E, 'core::str::len', 'std::string::String::len')
     def strlen(E, a, ctx):
         return blen(E, deref(E, a[0]))
